@@ -3,12 +3,13 @@ use crate::{c01, txgen::{ref_bytes, ref_params_vec, ref_stack}, util::*, Case, O
 use elements::dynafed::Params;
 use elements::encode::{deserialize, serialize};
 use elements::hashes::{sha256d, Hash};
-use elements::{fast_merkle_root, BlockExtData, BlockHeader};
+use elements::{BlockExtData, BlockHeader};
 use rand::Rng;
 use rand_chacha::ChaCha20Rng;
 
 fn sh<T: elements::encode::Encodable>(x: &T) -> [u8; 32] { sha256d::Hash::hash(&serialize(x)).to_byte_array() }
-fn fmr(l: &[[u8; 32]]) -> [u8; 32] { fast_merkle_root(l).to_parts().0 }
+// the definitional merkle tree (c18::definitional: the hashes crate's SHA-256 compression, not the crate's fast_merkle_root)
+fn fmr(l: &[[u8; 32]]) -> [u8; 32] { crate::c18::definitional(l) }
 
 pub fn eval(case: &str) -> Out {
     let w: Vec<&str> = case.split(' ').collect();
